@@ -114,3 +114,12 @@ add("C10", "exploration",
     "Wall-clock caps are generous and cap hits must reproduce twice; real astroid inference (no speed instrumentation).",
     "property-based robustness testing / fuzzing (Hypothesis): mutation + grammar-of-invalid-inputs with a validity-of-verdict oracle",
     "DESIGN.md section 10")
+add("C11", "exploration",
+    "Hypothesis rule-based state machine over one long-lived process: after every compilation the result must equal "
+    "the fresh-process reference for the same (sources, option values) and every earlier result for it, and the "
+    "options object / source mapping must be unchanged; requests include directive-bearing sources with shared option "
+    "objects, colliding constexpr call texts and erroring sources.",
+    "Fresh references come from forked copies of a template process whose only history is one trivial compilation, "
+    "cross-checked against brand-new interpreters; stack traces and memory addresses are masked.",
+    "stateful / model-based property testing (Hypothesis RuleBasedStateMachine) with a fresh-process reference oracle",
+    "DESIGN.md section 11")
